@@ -20,10 +20,16 @@ type scriptReader struct {
 	failAt      int // -1 = never; otherwise fail once pos >= failAt
 	failErr     error
 	eofWithData bool
+	failOnce    bool // the failure is reported by exactly one Read (possibly together with data); afterwards a clean EOF
+	failed      bool
 }
 
 func (r *scriptReader) Read(p []byte) (int, error) {
+	if r.failOnce && r.failed {
+		return 0, io.EOF
+	}
 	if r.failAt >= 0 && r.pos >= r.failAt {
+		r.failed = true
 		return 0, r.failErr
 	}
 	n := 4096
@@ -46,6 +52,7 @@ func (r *scriptReader) Read(p []byte) (int, error) {
 		copy(p, r.data[r.pos:r.pos+n])
 		r.pos += n
 		if n == 0 || r.eofWithData {
+			r.failed = true
 			return n, r.failErr // the failure arrives together with the last bytes
 		}
 		return n, nil
@@ -99,6 +106,9 @@ func runStream(payload []*Sx) *Sx {
 	}
 	// streaming
 	rd := &scriptReader{data: doc, sizes: sizes, failAt: failAt, failErr: failErr, eofWithData: ewd}
+	if len(payload) > 4 {
+		rd.failOnce = payload[4].List[1].Atom == "1"
+	}
 	dec := cedar.NewDecoder(rd)
 	var got []*cedar.Policy
 	var serr error
